@@ -101,6 +101,21 @@ func (p *Program) verifyFunc(fc *FuncContract) (u *Unit) {
 	}
 	// vacuity: the precondition must be satisfiable
 	x.vc.oblige(&Obligation{Name: fc.Key + "#cover.pre", Kind: "cover", Func: fc.Key, Guard: tTrue, Goal: tTrue, Cover: true, Src: "requires are satisfiable"})
+	// facts established by this function: their parameters are arbitrary ghost constants
+	for _, fname := range fc.Establishes {
+		lm := p.contracts.Lemmas[fname]
+		if lm == nil || !lm.Fact {
+			bail("establishes %s: no such fact", fname)
+		}
+		for _, prm := range lm.Params {
+			sort, signed := lemmaParamSort(x, prm.Type)
+			opts.ghost[prm.Name] = Sc{T: x.vc.input("ghost."+prm.Name, sort), Signed: signed}
+		}
+		// the fact's hypotheses constrain its (ghost) parameters: assumed from the start
+		for _, h := range lm.Hyps {
+			x.vc.assume(x.evalBoolClause(fr, &entry, h, opts), "hypothesis of fact "+lm.Name)
+		}
+	}
 	// splits
 	for _, s := range fc.Splits {
 		v := x.evalExpr(fr, &entry, s.Expr, opts)
@@ -121,6 +136,7 @@ func (p *Program) verifyFunc(fc *FuncContract) (u *Unit) {
 			x.useLemma(fr, &entry, ul, opts)
 		}
 	}
+	x.topOpts = opts
 	if fc.Trusted != "" {
 		// contract is assumed; nothing to verify besides satisfiability of the precondition
 		u.Trusted = fc.Trusted
@@ -165,6 +181,17 @@ func (p *Program) verifyFunc(fc *FuncContract) (u *Unit) {
 			name = fmt.Sprintf("%s#post.%s", fc.Key, e.Label)
 		}
 		x.vc.oblige(&Obligation{Name: name, Kind: "post", Func: fc.Key, Guard: out.reach, Goal: g, Src: e.Src, Pos: fmt.Sprintf("%s:%d", e.File, e.Line)})
+	}
+	for _, fname := range fc.Establishes {
+		lm := p.contracts.Lemmas[fname]
+		var hyps, concl []T
+		for _, h := range lm.Hyps {
+			hyps = append(hyps, x.evalBoolClause(fr, &out, h, opts))
+		}
+		for _, c := range lm.Concl {
+			concl = append(concl, x.evalBoolClause(fr, &out, c, opts))
+		}
+		x.vc.oblige(&Obligation{Name: fc.Key + "#establishes." + lm.Name, Kind: "post", Func: fc.Key, Guard: mkAnd(append([]T{out.reach}, hyps...)...), Goal: mkAnd(concl...), Src: "fact " + lm.Name})
 	}
 	if fc.HasMod {
 		x.frameObligations(fr, &entry, &out, fc, opts)
